@@ -221,6 +221,7 @@ def normalize(res, sc, tid):
                            'temps': f['temps']})
         elif k == 'CbBegin':
             ev.append({'e': 'CbBegin', 'cb': e['cb'], 'x': X(e),
+                       'user': th in ('canceller', 'user'),
                        'sub': e['sub'] + 1, 'n': e.get('n', 0),
                        'flag': bool(e.get('flag', True)),
                        'st': e.get('st', '')})
@@ -319,6 +320,8 @@ def normalize(res, sc, tid):
     if res.get('failure'):
         perm = True   # a torn-down run says nothing about permits
     ev.append({'e': 'End', 'perm': bool(perm), 'finbad': finbad})
+    for e in ev:
+        e.setdefault('user', False)
     return {'id': tid, 'meta': meta, 'ev': ev}
 
 
